@@ -34,3 +34,6 @@ def node(run, P):
     from rules import r_ownnode
     r_ownnode.run(run, P)
     r_ownnode.run_retrans(run, P)
+def reply(run, P):
+    from rules import r_reply
+    r_reply.run(run, P)
